@@ -363,6 +363,8 @@ var c01StmtAlphabet = []string{
 	"mm = {1: 1, 2: 2, 3: 3, 4: 4, 5: 5}; del(mm[5]); mb = mm; mb[1] = v; println(mm, mb)",
 	"md = {1: 1, 1: 2, 1: 3, 1: 4, 1: 5}; me = md; me[1] = v; del(me[1]); println(md, me)",
 	"ma = [1, 2, 3, 4, 5, 6, 7, 8, 9, 10][0:2]; mc = ma; mc[0] = v; println(ma, mc)",
+	// the value of a loop expression
+	"w = for i = 0:5 { if i == 3 { break }; i }", "w = for i = 4 { i * 2 }", "w = [for e = [4, 5, 6] { if e == 6 { break }; e }, for v < 6 { v = v + 1; v }]",
 	// a trailing array argument is spread into the variadic parameters, also when it is a variable of an outer scope
 	"ar = [v, 4]; fv = func(a, ..) { [a, ..] }; println(fv(1, ar), func() { fv(1, ar) }(), func() { max(ar) }())",
 	// element deletion / insertion on a map that lives in an outer scope
